@@ -2,6 +2,7 @@ import VaxisModel.Model.VxfwInterpAll
 import VaxisModel.Lemmas.VxfwBodyX
 import VaxisModel.Lemmas.VxfwBodyFocus
 import VaxisModel.Lemmas.VxfwBodyTree
+import VaxisModel.Lemmas.VxfwBodyRun
 
 /-! `mouseHandler.update`, `focusHandler.updatePath`, `App.handleCommand` executed from their bodies WITH their callees
     (`hitTest`, `containsPoint`, `findPath` → `childHasFocus`, `focusWidget`) executed from theirs are still the model functions. -/
@@ -175,5 +176,48 @@ theorem up_all (e : EOracle) (fuel : Nat) (s : St) (t : STree) :
 theorem hc_all (e : EOracle) (fuel : Nat) (s : St) (c : Cmd) :
     runHandleCommandAll hcT expC e fuel s c = some (eHandleCommand e (fuel + 1) s c) :=
   hc_exec_x e fuel _ (good_callees e fuel) _ s c (Nat.lt_succ_self _)
+
+/-! ### the Run loop -/
+
+open VaxisModel.Lemmas.VxfwBodyRun in
+theorem bRunFrameAll_eq (e : EOracle) (fuel : Nat) (s : St) (t1 t2 : STree) :
+    bRunFrameAll expB expC e fuel s t1 t2 = some (eRunFrame e (fuel + 1) s t1 t2) := by
+  unfold bRunFrameAll eRunFrame
+  cases hr : s.redraw
+  · rfl
+  · simp only [Bool.not_true, Bool.false_eq_true, ↓reduceIte, expB, mu_all, up_all]
+    split <;> rfl
+
+open VaxisModel.Lemmas.VxfwBodyRun in
+theorem bRunStepsAll_eq (e : EOracle) (fuel : Nat) : ∀ (steps : List Step) (s : St),
+    bRunStepsAll expB expC e fuel s steps = some (eRunSteps e (fuel + 1) s steps)
+  | [], _ => rfl
+  | st :: rest, s => by
+    have hst : bRunStepAll expB expC e fuel s st = some (eRunStep e (fuel + 1) s st) := by
+      cases st with
+      | ev ev => exact bRunEvent_eq e fuel s ev
+      | frame t1 t2 => exact bRunFrameAll_eq e fuel s t1 t2
+    unfold bRunStepsAll eRunSteps
+    rw [hst]
+    simp only []
+    split
+    · rfl
+    · cases st with
+      | ev ev =>
+        simp only []
+        split
+        · rfl
+        · exact bRunStepsAll_eq e fuel rest _
+      | frame t1 t2 => exact bRunStepsAll_eq e fuel rest _
+
+open VaxisModel.Lemmas.VxfwBodyRun in
+theorem bRunAll_eq (e : EOracle) (fuel : Nat) (root : Id) (t0 : STree) (steps : List Step) :
+    bRunAll expB expC e fuel root t0 steps = some (eRun e (fuel + 1) root t0 steps) := by
+  unfold bRunAll eRun
+  rw [bRunInit_eq]
+  simp only []
+  split
+  · rfl
+  · exact bRunStepsAll_eq e fuel steps _
 
 end VaxisModel.Lemmas.VxfwBodyAll
